@@ -2,6 +2,8 @@ import PetgraphModel.Common
 import PetgraphModel.GraphProto
 import PetgraphModel.Oracle.C13Iso
 import PetgraphModel.Model.C13Vf2
+import PetgraphModel.Model.C13Vf2Side
+import PetgraphModel.Model.C13Vf2Link
 /-
 C13 driver.  Per case and per *round* (one choice of storage encodings / index labelings):
 
@@ -18,6 +20,21 @@ C13 driver.  Per case and per *round* (one choice of storage encodings / index l
 Every answer is judged against the definitional oracle on the ABSTRACT graphs (`Oracle/C13Iso.lean`, proved
 in `Theorems/C13.lean`); the mirror model of VF2 (`Model/C13Vf2.lean`) run on the concrete index labelings
 gives the exact comparison (including the order of the yielded mappings).
+
+RUN-TIME CHECKS OF THE THEOREMS' HYPOTHESES (`Theorems/C13.lean`, section "run-time checks of the hypotheses").
+Per graph line: `wfB`, `canonNodesB`, `simpleB`, `viewOkB`.  Per query: same edge type, `problemOkB P`, and
+`Vf2.sideFail` on the concrete instance handed to the model — `cgOkB` (both), same `directed`, `ECountOk` (both),
+`inNodupB g0`, `absPermB` (both); a failure is `SPECFAIL side condition <name> does not hold: …` (these are
+consequences of the trait implementations describing ONE simple graph), and `Vf2.linkFail`: the concrete
+instance handed to the model poses the abstract problem the oracle is asked (adjacency, edge weights and node
+weights read through the index labeling agree) — all bundled as `queryFail`
+(`C13_driver_query_check`).  Per model call (each `next()` of the
+drained iterator included) the FUEL: the driver runs the reporting wrappers `isoModelR` / `subModelR` /
+`iterModelR`; a call that does not return within `bigFuel` loop iterations is never turned into an answer of
+the model but into `SPECFAIL generator left the proved range: FUEL …` (impossible while
+`explicitBound I ≤ bigFuel`, e.g. up to 9 nodes: `C13_vf2_fuel_never_reported`).  For every query that gets
+past these checks the model's answer is proved to be the specification's (`C13_vf2_*_checked`), for graphs of
+any size.
 -/
 namespace PetgraphModel.C13
 open PetgraphModel
@@ -46,6 +63,16 @@ def parsePred (s : String) : Option (Int → Int → Bool) :=
   | "le" => some fun a b => decide (a ≤ b)
   | _ => none
 
+/-- the predicates of a request: none for the plain functions (the model then runs with the matchers disabled),
+two names for the `_matching` variants and the iterator -/
+def parsePreds (rest : List String) : Option ((Int → Int → Bool) × (Int → Int → Bool)) :=
+  match rest with
+  | [] => some (fun _ _ => true, fun _ _ => true)
+  | [a, b] => match parsePred a, parsePred b with
+    | some x, some y => some (x, y)
+    | _, _ => none
+  | _ => none
+
 def wOf (l : List Int) (a : Nat) : Int := (l[a]?).getD 0
 
 /-- the abstract problem (nodes in canonical order `0..n-1`) -/
@@ -53,6 +80,23 @@ def problem (d : DState) (nm em : Int → Int → Bool) : Problem :=
   { g0 := { d.v0.g with nodes := List.range d.v0.g.nodes.length },
     g1 := { d.v1.g with nodes := List.range d.v1.g.nodes.length },
     nw0 := wOf d.nw0, nw1 := wOf d.nw1, nm := nm, em := em }
+
+/-- the concrete instance handed to the mirror model -/
+def mkInst (d : DState) (nm em : Int → Int → Bool) (semantic : Bool) : Vf2.Inst :=
+  Vf2.setup d.v0 d.v1 (wOf d.nw0) (wOf d.nw1) nm em semantic
+
+/-- everything the driver checks before it judges a query (`none` = every hypothesis of the theorems about the
+concrete case holds: `C13_driver_query_check`) -/
+def queryFail (d : DState) (nm em : Int → Int → Bool) (semantic : Bool) : Option String :=
+  if d.v0.g.directed != d.v1.g.directed then some "harness: edge types differ"
+  else if !problemOkB (problem d nm em) then
+    some "harness: the abstract pair is not a pair of well-formed simple graphs of one edge type"
+  else match Vf2.sideFail (mkInst d nm em semantic) with
+    | some w => some s!"side condition {w} does not hold: the concrete graphs handed to the model are not a consistent encoding of the abstract pair"
+    | none =>
+      match Vf2.linkFail (mkInst d nm em semantic) (problem d nm em) with
+      | some w => some s!"side condition {w} does not hold: the concrete instance handed to the model does not pose the abstract problem the oracle is asked"
+      | none => none
 
 def parseMapping (s : String) : Option (List Nat) :=
   if s == "e" then some [] else
@@ -90,11 +134,18 @@ def readGraph (req : List String) : Option (View × List Int × Option String) :
     else none
   some (v, nw, why)
 
-def boolVerdict (expected model : Bool) (impl : String) (what : String) : String :=
+/-- the verdict for a model call that ran out of fuel: never an answer -/
+def fuelVerdict (I : Vf2.Inst) (what : String) : String :=
+  s!"SPECFAIL generator left the proved range: FUEL the mirror model's {what} did not return within {Vf2.bigFuel} loop iterations (n0={I.g0.n} n1={I.g1.n}, explicitBound={Vf2.explicitBound I}); the implementation's answer agrees with the definition but cannot be compared with the model"
+
+/-- `model = none`: the model's call ran out of fuel -/
+def boolVerdict (expected : Bool) (model : Option Bool) (I : Vf2.Inst) (impl : String) (what : String) : String :=
   if impl != "true" && impl != "false" then s!"SPECFAIL {what}: answer {impl}"
   else if impl != showBool expected then
     s!"SPECFAIL {what} returned {impl}, by definition (enumeration of all injections) it is {showBool expected}"
-  else cmpExact (showBool model) impl
+  else match model with
+    | none => fuelVerdict I what
+    | some b => cmpExact (showBool b) impl
 
 def step (d : DState) (req : List String) (impl : String) : DState × String :=
   match req with
@@ -111,45 +162,36 @@ def step (d : DState) (req : List String) (impl : String) : DState × String :=
       ({ d with v1 := v, nw1 := nw, ok1 := why.isNone }, match why with | none => "ok" | some w => s!"SPECFAIL g1: {w}")
   | q :: rest =>
     if !(d.ok0 && d.ok1) then (d, "SPECFAIL query without a valid graph pair") else
-    if d.v0.g.directed != d.v1.g.directed then (d, "SPECFAIL harness: edge types differ") else
-    let preds : Option ((Int → Int → Bool) × (Int → Int → Bool)) :=
-      match rest with
-      | [] => some (fun _ _ => true, fun _ _ => true)
-      | [a, b] => match parsePred a, parsePred b with
-        | some x, some y => some (x, y)
-        | _, _ => none
-      | _ => none
-    match preds with
+    match parsePreds rest with
     | none => (d, s!"SPECFAIL bad request {req}")
     | some (nm, em) =>
       let P := problem d nm em
-      if !problemOkB P then (d, "SPECFAIL harness: the abstract pair is not a pair of well-formed simple graphs of one edge type") else
       let semantic := !rest.isEmpty
-      let m := Vf2.setup d.v0 d.v1 (wOf d.nw0) (wOf d.nw1) nm em semantic
-      if !(Vf2.cgOkB m.g0 && Vf2.cgOkB m.g1) then (d, "SPECFAIL harness: the index labeling / neighbour lists of this encoding are inconsistent") else
+      let m := mkInst d nm em semantic
+      match queryFail d nm em semantic with
+      | some w => (d, s!"SPECFAIL {w}")
+      | none =>
       match q with
       | "iso" | "isom" =>
         if impl == "panic" then (d, "SPECFAIL is_isomorphic panicked") else
-        (d, boolVerdict (isoB P) (Vf2.isoModel m) impl "is_isomorphic")
+        (d, boolVerdict (isoB P) (Vf2.isoModelR m Vf2.bigFuel) m impl "is_isomorphic")
       | "sub" | "subm" =>
         if impl == "panic" then (d, "SPECFAIL is_isomorphic_subgraph panicked") else
-        (d, boolVerdict (subIsoB P) (Vf2.subModel m) impl "is_isomorphic_subgraph")
+        (d, boolVerdict (subIsoB P) (Vf2.subModelR m Vf2.bigFuel) m impl "is_isomorphic_subgraph")
       | "iter" =>
         if impl == "panic" then (d, "SPECFAIL subgraph_isomorphisms_iter panicked") else
         match parseIterAnswer impl with
         | none => (d, s!"SPECFAIL malformed answer {impl}")
         | some (ans, more) =>
           let all := subIsoAll P
-          -- the recorded finding: an empty pattern makes the iterator yield the empty mapping for ever
-          if more && P.g0.nodes.isEmpty && (match ans with | some l => l.all (·.isEmpty) && l.length ≥ 2 | none => false) then
-            (d, "KNOWN NEW-iter-empty-pattern-repeats subgraph_isomorphisms_iter with a node-less g0 yields the empty mapping again and again (never ends); exactly one empty mapping is the answer")
-          else if more then
+          if more then
             (d, s!"SPECFAIL subgraph_isomorphisms_iter yields more vectors than there are injections ({all.length} mappings exist)")
           else if judgeIter P ans then
-            let model := match Vf2.iterModel m with
-              | none => "none"
-              | some (ls, fin) => s!"some {showMappings ls} {if fin then "end" else "more"}"
-            (d, cmpExact model impl)
+            match Vf2.iterModelR m Vf2.bigFuel with
+            | none => (d, fuelVerdict m "subgraph_isomorphisms_iter (one of its next() calls)")
+            | some none => (d, cmpExact "none" impl)
+            | some (some (ls, fin)) =>
+              (d, cmpExact s!"some {showMappings ls} {if fin then "end" else "more"}" impl)
           else
             let got := match ans with | none => "None" | some l => showMappings l
             (d, s!"SPECFAIL subgraph_isomorphisms_iter yielded [{got}], the set of induced-subgraph embeddings is [{showMappings all}]")
